@@ -104,7 +104,7 @@ MODEL_FNS = {
 
 # explicit termination arguments for the recursive ones (a wrong one only makes the generated file fail to compile)
 TERMINATION = {
-    "abstract_eq": "termination_by Rs.eqRank first + Rs.eqRank second\ndecreasing_by all_goals (simp_all [Rs.eqRank] <;> omega)",
+    "abstract_eq": "termination_by Rs.eqRank first + Rs.eqRank second\ndecreasing_by all_goals (simp_all [Rs.eqRank, rs] <;> omega)",
     "parse_float": "termination_by Rs.strRank val_\ndecreasing_by all_goals (simp_all [Rs.strRank])",
 }
 
@@ -261,6 +261,7 @@ STD_CALLS = {
     ("Number", "from_f64"): "Num.ofF64?", ("Number", "from"): "Rs.number_from", ("f64", "from_str"): "JsOp.rustParseF64", ("String", "from"): "Rs.id_", ("i128", "from"): "Rs.to_int",
     ("std", "ptr", "eq"): "Rs.ptr_eq", ("ptr", "eq"): "Rs.ptr_eq", ("i64", "from"): "Rs.to_int", ("f64", "from"): "Rs.to_f64",
     ("Vec", "new"): "Rs.new_", ("String", "new"): "Rs.new_", ("Value", "clone"): "Rs.id_", ("Clone", "clone"): "Rs.id_", ("String", "clone"): "Rs.id_",
+    ("std", "mem", "take"): "Rs.mem_take", ("mem", "take"): "Rs.mem_take",
     ("cmp", "min"): "Rs.min_", ("cmp", "max"): "Rs.max_", ("std", "cmp", "min"): "Rs.min_", ("std", "cmp", "max"): "Rs.max_", ("Cow", "from"): "Rs.id_", ("Some",): "some",
     ("Value", "from"): "Rs.id_", ("Parsed", "from_value"): "Rs.parsed_from_value", ("usize", "try_from"): "Rs.try_into", ("u64", "try_from"): "Rs.try_into", ("i64", "try_from"): "Rs.try_into_i64",
     ("KeyType", "try_from"): "Rs.try_into", ("char", "from"): "Rs.id_", ("u64", "from"): "Rs.to_nat", ("usize", "from"): "Rs.to_nat",
@@ -274,7 +275,7 @@ RS_METHODS = {"evaluate", "to_string", "as_f64", "as_i64", "as_u64", "map", "and
               "contains", "starts_with", "ends_with", "strip_prefix", "trim_matches", "trim_start_matches", "trim_end_matches", "take", "skip", "chain", "join", "fract", "abs", "unsigned_abs", "try_into",
               "checked_sub", "is_some", "is_none", "is_nan", "is_finite", "is_infinite", "rev", "count", "last", "first", "trunc", "floor", "is_sign_negative", "is_sign_positive", "unwrap_or_default",
               "take_while", "skip_while", "enumerate", "position", "find", "max", "min", "powi", "signum", "is_ascii_digit", "to_digit", "saturating_add", "saturating_sub", "iter_keys", "keys", "values",
-              "parse", "transpose", "checked_add", "is_null", "is_string", "is_number", "is_array", "is_object", "is_boolean", "as_bool", "as_array", "as_object", "as_null", "eq", "ne", "lt", "le", "gt", "ge", "then", "xor"}
+              "parse", "transpose", "checked_add", "saturating_sub", "zip", "is_char_boundary", "unwrap_or_else", "flatten", "copied", "is_null", "is_string", "is_number", "is_array", "is_object", "is_boolean", "as_bool", "as_array", "as_object", "as_null", "eq", "ne", "lt", "le", "gt", "ge", "then", "xor"}
 MUTATING_METHODS = {"insert": "insert_", "next": "next", "pop": "pop", "push": "push", "push_str": "push_str", "extend": "extend", "clear": "clear", "append": "extend", "insert": "insert_"}
 BINOPS = {"==": "Rs.eq", "<": "Rs.lt", "<=": "Rs.le", ">": "Rs.gt", ">=": "Rs.ge", "+": "Rs.add", "-": "Rs.sub", "*": "Rs.mul", "/": "Rs.div", "%": "Rs.rem"}
 
@@ -497,7 +498,14 @@ class Emitter:
             self.ret_wrap = lambda v: v
             self.loop_ctx = None
             for p in params:
-                names.append(self.pat(p))
+                if isinstance(p, tuple) and p and p[0] == "typed":
+                    try:
+                        names.append("(%s : %s)" % (self.pat(p[1]), lean_type(p[2], {})))
+                    except UnsupportedSyntax:
+                        names.append(self.pat(p[1]))
+                    p = p[1]
+                else:
+                    names.append(self.pat(p))
                 p_ = p
                 while p_[0] == "pref": p_ = p_[1]
                 if p_[0] == "bind" and p_[3]: self.muts.append(p_[1])
